@@ -13,14 +13,14 @@
 //	    executors that call BrokerChannel.Negotiate).
 //	sdpdrv judge  <cases.ndjson> <captured.ndjson> <out.ndjson> <seed> <template.json>
 //	    apply the same oracle to what an executor captured
-//	    {"idx","keeplocal","sent","panic"}.
+//	    {"idx","keeplocal","faults","sents":[every payload],"panic"}.
 //	sdpdrv pclist <table.ndjson> <list.ndjson>
 //	    the (typ, address text) pairs an executor can put into a real
 //	    PeerConnection's local description (IPv4, host and srflx).
 //	sdpdrv judgepc <table.ndjson> <captured.ndjson> <out.ndjson>
 //	    oracle for what SignalingServer.sendAnswer posted: captured
-//	    {"idx","typ","addr","keeplocal","input","sent","panic"}; the fate of each
-//	    candidate line of `input` is looked up in TLC's table.
+//	    {"idx","typ","addr","keeplocal","faults","input","sents":[every request],"panic"};
+//	    the fate of each candidate line of `input` is looked up in TLC's table.
 //
 // The driver only concretises, executes and compares text; which candidate
 // must be stripped, kept or is a don't-care comes from TLC.
@@ -715,20 +715,28 @@ func modeBuild(cases []json.RawMessage, w *vh.Writer, seed uint64) {
 }
 
 type captured struct {
-	Idx       int    `json:"idx"`
-	KeepLocal bool   `json:"keeplocal"`
-	Sent      string `json:"sent"`
-	Panic     string `json:"panic,omitempty"`
-	NotSent   bool   `json:"notsent,omitempty"`
-	Skip      string `json:"skip,omitempty"`
+	Idx       int      `json:"idx"`
+	KeepLocal bool     `json:"keeplocal"`
+	Faults    []string `json:"faults"`    // environment script of the call-site machine
+	Sents     []string `json:"sents"`     // the description inside EVERY payload handed to the transport, in order
+	Undecoded int      `json:"undecoded"` // payloads the executor could not decode
+	Panic     string   `json:"panic,omitempty"`
+	Skip      string   `json:"skip,omitempty"`
 	// judgepc only
 	Typ   string `json:"typ,omitempty"`
 	Addr  string `json:"addr,omitempty"`
 	Input string `json:"input,omitempty"`
 }
 
+func attemptClass(a int) string {
+	if a == 0 {
+		return "attempt=first"
+	}
+	return "attempt=retry"
+}
+
 func modeJudge(cases []json.RawMessage, caps []json.RawMessage, w *vh.Writer, seed uint64) {
-	var nt int64
+	var nt, payloads, retried int64
 	vh.RunParallel(len(caps), 0, func(k int) {
 		var cp captured
 		if err := json.Unmarshal(caps[k], &cp); err != nil {
@@ -743,21 +751,29 @@ func modeJudge(cases []json.RawMessage, caps []json.RawMessage, w *vh.Writer, se
 			w.Put(vh.Result{Idx: cp.Idx, Sig: "negotiate/panic/" + kl, Detail: cp.Panic, Case: c})
 			return
 		}
-		if cp.NotSent {
-			w.Put(vh.Result{Idx: cp.Idx, Sig: "negotiate/nothing-sent/" + kl, Detail: "Negotiate did not call the rendezvous method", Case: c})
+		if len(cp.Sents) == 0 || cp.Undecoded > 0 {
+			w.Put(vh.Result{Idx: cp.Idx, Sig: "diverge/negotiate/nothing-decodable-sent/" + kl, Detail: fmt.Sprintf("Negotiate handed %d decodable and %d undecodable payloads to the rendezvous method", len(cp.Sents), cp.Undecoded), Case: c})
 			return
 		}
 		if nontrivial(c) {
 			atomic.AddInt64(&nt, 1)
 		}
+		atomic.AddInt64(&payloads, int64(len(cp.Sents)))
+		if len(cp.Sents) > 1 {
+			atomic.AddInt64(&retried, 1)
+		}
 		b := build(c, seed, cp.Idx)
-		if sig, detail := conforms(b.lines, cp.KeepLocal, cp.Sent); sig != "" {
-			w.Put(vh.Result{Idx: cp.Idx, Sig: "negotiate/" + sig, Detail: "offer sent to the broker by BrokerChannel.Negotiate: " + detail, Case: c})
+		for a, sent := range cp.Sents {
+			if sig, detail := conforms(b.lines, cp.KeepLocal, sent); sig != "" {
+				w.Put(vh.Result{Idx: cp.Idx, Sig: "negotiate/" + sig + "/" + attemptClass(a), Detail: fmt.Sprintf("payload %d of %d handed to the rendezvous method by BrokerChannel.Negotiate (environment script %v): %s", a+1, len(cp.Sents), cp.Faults, detail),
+					Case: map[string]interface{}{"desc": c, "faults": cp.Faults, "keeplocal": cp.KeepLocal}})
+				return
+			}
 		}
 	}, func(i int, v interface{}, stack string) {
 		w.Put(vh.Result{Idx: i, Sig: "panic/driver", Detail: fmt.Sprint(v) + "\n" + stack})
 	})
-	w.Put(map[string]interface{}{"summary": map[string]interface{}{"cases": len(caps), "nontrivial": nt}})
+	w.Put(map[string]interface{}{"summary": map[string]interface{}{"cases": len(caps), "nontrivial": nt, "payloads": payloads, "calls_with_retry": retried}})
 }
 
 func tableKey(typ, tr string, ip net.IP, text string) string {
@@ -807,7 +823,7 @@ func modePCList(rows []json.RawMessage, w *vh.Writer) {
 
 func modeJudgePC(rows []json.RawMessage, caps []json.RawMessage, w *vh.Writer) {
 	table := loadTable(rows)
-	nt, hit, skipped := 0, 0, 0
+	nt, hit, skipped, payloads, retried := 0, 0, 0, 0, 0
 	skipWhy := ""
 	for k, raw := range caps {
 		var cp captured
@@ -815,7 +831,7 @@ func modeJudgePC(rows []json.RawMessage, caps []json.RawMessage, w *vh.Writer) {
 			vh.Fatal("bad capture %d: %v", k, err)
 		}
 		kl := fmt.Sprintf("keeplocal=%v", cp.KeepLocal)
-		cs := map[string]interface{}{"typ": cp.Typ, "addr": cp.Addr, "keeplocal": cp.KeepLocal}
+		cs := map[string]interface{}{"typ": cp.Typ, "addr": cp.Addr, "keeplocal": cp.KeepLocal, "faults": cp.Faults}
 		if cp.Panic != "" {
 			w.Put(vh.Result{Idx: cp.Idx, Sig: "sendanswer/panic/" + kl, Detail: cp.Panic, Case: cs})
 			continue
@@ -826,8 +842,8 @@ func modeJudgePC(rows []json.RawMessage, caps []json.RawMessage, w *vh.Writer) {
 			skipWhy = cp.Typ + " " + cp.Addr + ": " + cp.Skip
 			continue
 		}
-		if cp.NotSent {
-			w.Put(vh.Result{Idx: cp.Idx, Sig: "sendanswer/nothing-sent/" + kl, Detail: "sendAnswer did not post an answer", Case: cs})
+		if len(cp.Sents) == 0 || cp.Undecoded > 0 {
+			w.Put(vh.Result{Idx: cp.Idx, Sig: "diverge/sendanswer/nothing-decodable-sent/" + kl, Detail: fmt.Sprintf("sendAnswer handed %d decodable and %d undecodable answer requests to the transport", len(cp.Sents), cp.Undecoded), Case: cs})
 			continue
 		}
 		if !strings.HasSuffix(cp.Input, "\r\n") {
@@ -865,11 +881,20 @@ func modeJudgePC(rows []json.RawMessage, caps []json.RawMessage, w *vh.Writer) {
 		}
 		hit++
 		nt++
-		if sig, detail := conforms(lines, cp.KeepLocal, cp.Sent); sig != "" {
-			w.Put(vh.Result{Idx: cp.Idx, Sig: "sendanswer/" + sig, Detail: "answer posted to the broker by SignalingServer.sendAnswer: " + detail, Case: cs})
+		payloads += len(cp.Sents)
+		if len(cp.Sents) > 1 {
+			retried++
+		}
+		for a, sent := range cp.Sents {
+			if sig, detail := conforms(lines, cp.KeepLocal, sent); sig != "" {
+				w.Put(vh.Result{Idx: cp.Idx, Sig: "sendanswer/" + sig + "/" + attemptClass(a),
+					Detail: fmt.Sprintf("request %d of %d handed to the transport by SignalingServer.sendAnswer (environment script %v): %s", a+1, len(cp.Sents), cp.Faults, detail), Case: cs})
+				break
+			}
 		}
 	}
-	w.Put(map[string]interface{}{"summary": map[string]interface{}{"cases": len(caps), "nontrivial": nt, "with_target_candidate": hit, "skipped": skipped, "skip_example": skipWhy}})
+	w.Put(map[string]interface{}{"summary": map[string]interface{}{"cases": len(caps), "nontrivial": nt, "with_target_candidate": hit, "skipped": skipped, "skip_example": skipWhy,
+		"payloads": payloads, "calls_with_retry": retried}})
 }
 
 func main() {
